@@ -42,9 +42,13 @@ def run(ck, tier):
     cases = []
     for c in cfgs:
         for k in ["honest"] + attacks:
-            d = dict(c)
-            d["kind"] = k
-            cases.append(d)
+            # row forgeries are tried on three column pairs (first/last, the last two, the first two): with
+            # partitioned row hashing different columns are bound by different partition digests
+            for v in ((0, 1, 2) if k in ("trace", "aux", "constraint") else (0,)):
+                d = dict(c)
+                d["kind"] = k
+                d["variant"] = v
+                cases.append(d)
     res = starklib.run_pipeline(binary, "c03-attack", cases, engine="attack", timeout=3000)
     constructed = {k: 0 for k in attacks}
     stats = {}
